@@ -31,6 +31,9 @@ def cart_regions():
         'cart3x2hole': dict(cells=[g(0, 0), g(2, 0), g(0, 1), g(1, 1), g(2, 1)], flags=None),
         'cart1x3': dict(cells=[g(0, 0), g(0, 1), g(0, 2)], flags=None),
         'cart2x2flag': dict(cells=[g(0, 0), g(1, 0), g(0, 1), g(1, 1)], flags=[1, 1, 0, 1]),
+        # used by the structured large catalogs only: 6x5 lattice with a hole at (2,2) and one flagged-out cell
+        'cart6x5': dict(cells=[g(c, r) for r in range(5) for c in range(6) if (c, r) != (2, 2)],
+                        flags=[0 if i == 7 else 1 for i in range(29)]),
     }
 
 
@@ -79,7 +82,12 @@ def positions_for(rname):
 
 def cases(tier, seed):
     mx = 3 if tier == 'quick' else 4
-    for rname in list(cart_regions()) + list(QUAD):
+    # structured LARGE catalogs (size-dependent paths): 10..2000 events cycling over every cell and magnitude class
+    for rname in ('cart6x5', 'quadL2'):
+        for n in (10, 100, 1000) + ((2000,) if tier == 'thorough' else ()):
+            for bad in ('none', 'first', 'middle', 'last', 'below-mag-middle'):
+                yield dict(kind='large', region=rname, n=n, bad=bad)
+    for rname in [r for r in cart_regions() if r != 'cart6x5'] + list(QUAD):
         for grid in MAG_GRIDS:
             for bound in (True, False):
                 for size in range(0, mx + 1):
@@ -90,7 +98,7 @@ def cases(tier, seed):
                         yield dict(kind='block', region=rname, grid=grid, bound=bound, size=size, zone=(tier == 'thorough' or size <= 2),
                                    perms=('all' if tier == 'thorough' and size <= 3 else 'three'), part=[part, nparts])
     if tier == 'quick':
-        rname = (list(cart_regions()) + list(QUAD))[seed % 7]
+        rname = ([r for r in cart_regions() if r != 'cart6x5'] + list(QUAD))[seed % 7]
         for part in range(16):
             yield dict(kind='block', region=rname, grid='m567', bound=True, size=4, perms='sorted', part=[part, 16])
 
@@ -99,8 +107,19 @@ def cases(tier, seed):
 def ref_cell(rname, lon, lat):
     if rname.startswith('cart'):
         reg = cart_regions()[rname]
-        for i, (x0, y0) in enumerate(reg['cells']):
-            if x0 <= lon < x0 + DH and y0 <= lat < y0 + DH:
+        # the column/row of a coordinate is the one with the greatest origin not above it (a coordinate on a boundary belongs
+        # to the cell that boundary opens); x0 + DH is only used for the outer edge of the lattice
+        xs = sorted({c[0] for c in reg['cells']})
+        ys = sorted({c[1] for c in reg['cells']})
+        cx = [x for x in xs if x <= lon]
+        cy = [y for y in ys if y <= lat]
+        if not cx or not cy or not (lon < xs[-1] + DH and lat < ys[-1] + DH):
+            return None
+        if lon >= cx[-1] + DH + 1e-9 or lat >= cy[-1] + DH + 1e-9:
+            return None       # inside a missing column/row
+        key = (cx[-1], cy[-1])
+        for i, c in enumerate(reg['cells']):
+            if tuple(c) == key:
                 return i if (reg['flags'] is None or reg['flags'][i] == 1) else None
         return None
     hit = rq.containing([rq.bounds(k) for k in QUAD[rname]], lon, lat)
@@ -149,14 +168,14 @@ def orders(seq, mode):
     return uniq
 
 
-def judge_catalog(rname, grid, bound, letters, pos, mags, edges, failures, hsh, hist=True):
+def judge_catalog(rname, grid, bound, letters, pos, mags, edges, failures, hsh, hist=True, allow_zone=True):
     """letters: list of (pos index, mag index). Returns evals."""
     quad = not rname.startswith('cart')
     reg = build_region(rname, edges if bound else None)
     evs = [(f'e{i}', 1262304000000 + i, pos[p][1], pos[p][0], 10.0, mags[m]) for i, (p, m) in enumerate(letters)]
     cells = [ref_cell(rname, pos[p][0], pos[p][1]) for p, m in letters]
     bins = [ref_bin(edges, mags[m]) for p, m in letters]
-    zone = [m == 4 for p, m in letters]          # tolerance-zone magnitudes (letter 4): bin -1 or 0, consistently
+    zone = [allow_zone and m == 4 for p, m in letters]          # tolerance-zone magnitudes (letter 4): bin -1 or 0, consistently
     n_cells = len(reg.polygons)
     nb = len(edges)
     all_in = all(c is not None for c in cells)
@@ -341,10 +360,56 @@ def judge_zone(rname, grid, bound, letters, evs, reg, cells, bins, zone, edges, 
     return evals
 
 
+def run_large(case, failures, hsh):
+    rname, n, bad = case['region'], case['n'], case['bad']
+    edges = [4.95, 5.05, 5.15, 5.25, 5.35]
+    if rname.startswith('cart'):
+        reg0 = cart_regions()[rname]
+        centres = [(x + DH / 2, y + DH / 2) for i, (x, y) in enumerate(reg0['cells']) if reg0['flags'][i] == 1]
+        corners = [(x, y) for i, (x, y) in enumerate(reg0['cells']) if reg0['flags'][i] == 1][::3]
+        outside = (0.25, 0.25)         # the hole
+    else:
+        bs = [rq.bounds(k) for k in QUAD[rname]]
+        centres = [((b[0] + b[2]) / 2, (b[1] + b[3]) / 2) for b in bs]
+        corners = [(b[0], b[1]) for b in bs][::3]
+        outside = (30.0, 86.0)
+    pts = centres + corners
+    mvals = [4.95, 5.0, 5.05, 5.2, 5.35, 7.7, 5.15]
+    pos, mags, letters = [], [], []
+    for i in range(n):
+        pos.append(pts[(i * 7) % len(pts)])
+        mags.append(mvals[(i * 3) % len(mvals)])
+    k = {'first': 0, 'middle': n // 2, 'last': n - 1, 'below-mag-middle': n // 2}.get(bad)
+    if bad in ('first', 'middle', 'last'):
+        pos[k] = outside
+    elif bad == 'below-mag-middle':
+        mags[k] = 4.0
+    # reuse the per-catalog judge with an explicit alphabet: positions/magnitudes indexed by event
+    class L(list):
+        pass
+    positions = list(dict.fromkeys(pos))
+    magnitudes = list(dict.fromkeys(mags))
+    seq = [(positions.index(p), magnitudes.index(m)) for p, m in zip(pos, mags)]
+    evals = 0
+    for bound in (True, False):
+        evals += judge_catalog(rname, 'large', bound, seq, positions, magnitudes, edges, failures, hsh, hist=(n <= 100), allow_zone=False)
+    for f in failures:
+        f['case'] = dict(case)
+    return evals
+
+
 def run_case(case):
     failures = []
     hsh = hashlib.sha1()
     evals = states = nontriv = 0
+    if case['kind'] == 'large':
+        evals = run_large(case, failures, hsh)
+        seen, uniq = set(), []
+        for f in failures:
+            if f['signature'] not in seen:
+                seen.add(f['signature'])
+                uniq.append(f)
+        return result(evals=evals, states=1, transitions=evals, nontrivial=1, failures=uniq, digest=hsh.hexdigest(), sample=dict(case))
     if case['kind'] == 'single':
         rname, grid, bound = case['region'], case['grid'], case['bound']
         cats = [[tuple(l) for l in case['letters']]]
